@@ -116,6 +116,8 @@ def sx_stmt(s):
         return f"(mod {d} {s[2]} {sx_lop(s[3])})"
     if t == "swap":
         return f"(swap {s[1]} {sx_path(s[2])} {s[3]} {sx_path(s[4])})"
+    if t == "opmod":
+        return f"(opmod {s[1]} {sx_path(s[2])} {s[3]} {1 if s[4] else 0} {s[5]} {sx_lop(s[6])})"
     if t == "for":
         return f"(for {s[1]} {sx_path(s[2])} " + " ".join(sx_stmt(x) for x in s[3]) + ")"
     raise ValueError(s)
@@ -236,6 +238,9 @@ def r_stmt(s):
         return body if s[1] is None else f"{nm(s[1][0])}{r_path(s[1][1])} = {body}"
     if t == "swap":
         return f"swap {nm(s[1])}{r_path(s[2])}, {nm(s[3])}{r_path(s[4])}"
+    if t == "opmod":
+        rhs = r_lop(s[6], nm(s[5]))
+        return f"{nm(s[1])}{r_path(s[2])} {BOPS[s[3]]}= " + (f"[{rhs}]" if s[4] else f"({rhs})")
     if t == "for":
         return f"for (it <- {nm(s[1])}{r_path(s[2])}) (" + "; ".join(r_stmt(x) for x in s[3]) + ")"
     raise ValueError(s)
@@ -514,6 +519,26 @@ class Gen:
             return self.key(), None
         return r.choice(ch)[0], None
 
+    def node_at(self, v, p):
+        cur = v
+        for pe in p:
+            nxt = None
+            if cur[0] == "L" and pe[0] == "i":
+                n = len(cur[1])
+                i = pe[1] if pe[1] >= 0 else pe[1] + n
+                if 0 <= i < n:
+                    nxt = cur[1][i]
+            elif cur[0] == "D":
+                for k, x in cur[2]:
+                    if k == pe:
+                        nxt = x
+            elif cur[0] == "X" and pe[0] == "f" and pe[1] == cur[1] and pe[2] < len(cur[2]):
+                nxt = cur[2][pe[2]]
+            if nxt is None:
+                return None
+            cur = nxt
+        return cur
+
     def bad_pe(self):
         # never a slice: a slice in a non-`every` assignment position is todo!() in set_index (F11), not C01's business
         r = self.r
@@ -680,6 +705,36 @@ class Gen:
             pe, lit = self.slot_of(node)
             e = ("lit", lit) if lit is not None and r.random() < 0.9 else self.expr(st)
             return ("assign", x, p + [pe], e)
+        if k < 0.44:
+            # op-assign whose right-hand side MUTATES (usually the target itself): x[p] ++= [pop x[p]], x append= pop x ...
+            got = self.pick(v, lambda n: n[0] == "L" and nitems(n) > 0)
+            if got is not None:
+                p, node = got
+                y = x if r.random() < 0.75 else self.var_with(st, lambda u: u[0] == "L", lo=lo)
+                vy = st[y]
+                if y == x:
+                    # mutate the target slot itself, a part of it, or the container around it
+                    c = r.random()
+                    mp = p if c < 0.5 else (p[:-1] if p and c < 0.7 else p)
+                    mnode = node if mp == p else None
+                else:
+                    mp, mnode = [], None
+                if mnode is None:
+                    g2 = self.pick(vy, lambda n: n[0] == "L" and nitems(n) > 0)
+                    if g2 is None:
+                        mp, mnode = [], vy
+                    else:
+                        mp, mnode = g2 if y != x else (mp, self.node_at(vy, mp))
+                kind = r.random()
+                if mnode is not None and mnode[0] == "L" and nitems(mnode) > 0 and kind < 0.45:
+                    m = ("lpop", mp)
+                elif mnode is not None and mnode[0] == "L" and nitems(mnode) > 0 and kind < 0.8:
+                    m = ("lremove", mp, ("i", r.randrange(0, nitems(mnode))))
+                else:
+                    m = ("lconsume", mp)
+                wrap = r.random() < 0.6
+                f = "concat" if wrap else r.choice(["append", "append", "concat"])
+                return ("opmod", x, p, f, wrap, y, m)
         if k < 0.58:
             p, node = self.pick(v, lambda n: n[0] in ("L", "V", "B", "D", "I")) or ([], v)
             f = self.bop_for(node)
@@ -726,6 +781,20 @@ class Gen:
         v = st[x]
         p, node = self.anynode(v, stop=0.3)
         k = r.random()
+        if k < 0.18:
+            # a FAILING element assignment on a string / vector / bytes (top level or nested): index out of range with a
+            # well-typed value, or a valid index with an ill-typed value - the payload must be left exactly as it was
+            cands = [(y, q, n) for y in range(1 if len(st) > 1 else 0, len(st)) for q, n in self.nodes(st[y])
+                     if n[0] in ("S", "V", "B")] if r.random() < 0.9 else []
+            if cands:
+                y, q, n = r.choice(cands)
+                ln = len(n[1])
+                good = {"S": ("S", self.bytes_(1)), "V": ("I", r.randrange(0, 9)), "B": ("I", r.choice([0, 9, 255]))}[n[0]]
+                if r.random() < 0.7 or ln == 0:
+                    return ("assign", y, q + [("i", r.choice([ln, ln + 3, -ln - 1, -ln - 4]))], ("lit", good))
+                bad = {"S": r.choice([("S", self.bytes_(2)), ("S", []), ("I", 1), ("N",)]), "V": r.choice([("S", self.bytes_(1)), ("N",), ("L", [])]),
+                       "B": r.choice([("I", 256), ("I", -1), ("S", self.bytes_(1)), ("N",)])}[n[0]]
+                return ("assign", y, q + [("i", r.randrange(0, ln))], ("lit", bad))
         if k < 0.25:
             return ("assign", x, p + [self.bad_pe()] + ([self.bad_pe()] if r.random() < 0.3 else []), self.expr(st))
         if k < 0.45:
@@ -875,7 +944,7 @@ def is_mutation(s):
         return True
     if s[0] in ("assign", "every"):
         return len(s[2]) > 0
-    return s[0] in ("op", "mod", "swap")
+    return s[0] in ("op", "mod", "swap", "opmod")
 
 
 def containers(v, acc):
@@ -947,7 +1016,7 @@ def tuplify_inner(y):
 
 
 TAGS = {"N", "I", "L", "S", "V", "B", "D", "X", "i", "s", "f", "sl", "lit", "read", "get", "list", "upd", "call", "lset", "levery", "lop",
-        "lpop", "lremove", "lconsume", "assign", "every", "op", "mod", "swap", "for"}
+        "lpop", "lremove", "lconsume", "assign", "every", "op", "mod", "swap", "for", "opmod"}
 
 ALPHABET = [
     ("assign", 1, [], ("lit", ("L", [("L", [("I", 1), ("I", 2)]), ("I", 3)]))),
@@ -1050,14 +1119,15 @@ def run(ctx):
         spec = Spec(runner)
         try:
             compare_batch(ctx, spec, corpus_histories(), stats, "corpus", machine)
-            nh = ctx.n(400, 20000)
+            nh = ctx.n(400, 12000)
+            bsz = ctx.n(400, 2000)
             batch = []
             for i in range(nh):
                 h = gen_history(ctx.rng, spec, p_bad=0.3 if i % 5 else 0.75)
                 batch.append(h)
                 if len(samples) < 6 and i % 50 == 0:
                     samples.append({"program": render_history(*h)[len(prelude(h[0])):][:12]})
-                if len(batch) >= 400:
+                if len(batch) >= bsz:
                     compare_batch(ctx, spec, batch, stats, "random", machine)
                     batch = []
             compare_batch(ctx, spec, batch, stats, "random", machine)
